@@ -219,7 +219,7 @@ func (r *Report) finish() int {
 		"property_id": rc.prop, "tier": rc.tier, "seed": rc.seed, "level": "proof",
 		"coverage": cov, "assumptions": assumptions, "wall_s": round3(time.Since(r.start).Seconds()), "violations": violations,
 	}
-	if rc.prop != "" && rc.funcOnly == "" {
+	if rc.prop != "" && rc.funcOnly == "" && !rc.noEvidence {
 		os.MkdirAll(filepath.Join(rc.verif, "evidence"), 0o755)
 		b, _ := json.MarshalIndent(ev, "", " ")
 		os.WriteFile(filepath.Join(rc.verif, "evidence", rc.prop+".json"), append(b, '\n'), 0o644)
